@@ -142,6 +142,7 @@ func VerifH14() {
 	k := histSteps(4, 5)
 	nd.Bound("H14.steps", k)
 	w := newWorld(stdConfig(), []string{"a", "b"})
+	w.mixAPIs = true
 	a := alpha{tx: true, maxTx: 1, levels: []fs_dbLevel{fs_db.IsoLevelReadCommitted, fs_db.IsoLevelSerializable}}
 	if nd.Tier() == 0 {
 		w.keys = []string{"a"}
@@ -166,6 +167,7 @@ func VerifH14b() {
 	k := histSteps(3, 4)
 	nd.Bound("H14b.steps", k)
 	w := newWorld(stdConfig(), []string{"a"})
+	w.mixAPIs = true
 	a := alpha{tx: true, maxTx: 1, levels: []fs_dbLevel{fs_db.IsoLevelReadCommitted, fs_db.IsoLevelSerializable}}
 	for i := 0; i < k; i++ {
 		w.step(a, "H14b")
